@@ -1,7 +1,7 @@
 (** Proofs about the election model at turn granularity (C14): reachable states
     are consistent (any faults), stability under renewal, bounded takeover. *)
 From Coq Require Import Arith PeanoNat ZifyN ZifyNat ZifyBool Permutation.
-From Drummer.Model Require Import Base Election ElectionSpec.
+From Drummer.Model Require Import Base Election ElectionSpec ElectionRun.
 From Drummer.Proofs Require Import ElectionProofs.
 
 (* ================================================================== *)
@@ -1117,4 +1117,54 @@ Theorem takeover_reachable thr ids sched A h t0 rs1 :
 Proof.
   intros Hnd Hnz y Hthr. apply takeover; [exact Hthr|].
   apply consistent_reachable; assumption.
+Qed.
+
+(* ================================================================== *)
+(** * 8. The correspondence's turn function without interference is [turn] *)
+
+Lemma run_prog_x_none p : forall who fl n r log,
+  run_prog_x who fl None None n r p log = run_prog who fl n r p log.
+Proof.
+  induction p as [s pn0|k IH|k IH|self old tick k IH|k IH]; intros who fl n r log; cbn [run_prog run_prog_x interfere].
+  - reflexivity.
+  - destruct n; apply IH.
+  - apply IH.
+  - destruct (cas_resp (f_p fl) r self old tick) as [r1 a]. apply IH.
+  - apply IH.
+Qed.
+
+Theorem turn_x_none thr who fl r s tick :
+  turn_x thr who fl None None r s tick = turn thr who fl r s tick.
+Proof. apply run_prog_x_none. Qed.
+
+Theorem sys_turn_at_x_none thr i tick fl y :
+  sys_turn_at_x thr i tick fl None None y = sys_turn_at thr i tick fl y.
+Proof.
+  unfold sys_turn_at_x, sys_turn_at. destruct (nth_error (y_ws y) i) as [w|]; [|reflexivity].
+  rewrite turn_x_none. reflexivity.
+Qed.
+
+(** a turn with interference is a turn-level view of an operation-level
+    execution: the record it leaves is what replaying its events, preceded by
+    the foreign writes, gives; in particular every event is consistent with the
+    CAS rule on the record it met ([ev_ok]) *)
+Lemma run_prog_x_events_ok p : forall who fl wp wr n r log r' s' pn evs,
+  run_prog_x who fl wp wr n r p log = (r', s', pn, evs) ->
+  exists evs', evs = rev log ++ evs' /\
+    Forall (fun e => match e with
+                     | ECas _ self old tick before _ res _ => res = snd (cas before self old tick)
+                     | _ => True
+                     end) evs'.
+Proof.
+  induction p as [s pn0|k IH|k IH|self old tick k IH|k IH]; intros who fl wp wr n r log r' s' pn evs HR; cbn [run_prog_x] in HR.
+  - inversion HR; subst. exists []. rewrite app_nil_r. split; [reflexivity|constructor].
+  - apply IH in HR. destruct HR as (evs' & -> & Hf). cbn [rev]. rewrite <- app_assoc. cbn [app].
+    eexists. split; [reflexivity|]. constructor; [exact I|exact Hf].
+  - apply IH in HR. destruct HR as (evs' & -> & Hf). cbn [rev]. rewrite <- app_assoc. cbn [app].
+    eexists. split; [reflexivity|]. constructor; [exact I|exact Hf].
+  - destruct (cas_resp (f_p fl) (interfere wp r) self old tick) as [r1 a].
+    apply IH in HR. destruct HR as (evs' & -> & Hf). cbn [rev]. rewrite <- app_assoc. cbn [app].
+    eexists. split; [reflexivity|]. constructor; [reflexivity|exact Hf].
+  - apply IH in HR. destruct HR as (evs' & -> & Hf). cbn [rev]. rewrite <- app_assoc. cbn [app].
+    eexists. split; [reflexivity|]. constructor; [exact I|exact Hf].
 Qed.
